@@ -32,6 +32,9 @@ from families import c20_multi
 # >>> C20-hist (call histories on kept objects; typed time stamps / long horizons: families/c20_hist.py)
 from families import c20_hist
 # <<< C20-hist
+# >>> C20-par (user-defined flat systems that declare default parameters; planning calls with params=: families/c20_par.py)
+from families import c20_par
+# <<< C20-par
 
 TOL = Fraction(1, 10 ** 6)        # regime T (solve / lstsq); observed worst error ~1e-10
 NINTERIOR = 3
@@ -178,6 +181,9 @@ class C20(Family):
     # >>> C20-hist (call histories on kept objects; typed time stamps / long horizons: families/c20_hist.py)
     extra_modules = extra_modules + ["CtrlVerif.Props.C20Hist"]    # inverse laws along every call history
     # <<< C20-hist
+    # >>> C20-par (user-defined flat systems that declare default parameters; planning calls with params=: families/c20_par.py)
+    extra_modules = extra_modules + ["CtrlVerif.Props.C20Params"]  # which dict forward / reverse / dynamics see
+    # <<< C20-par
     # >>> C20-flat (source-text tie of LinearFlatSystem.__init__ / forward / reverse, _basis_flag_matrix, the
     # boundary-condition statements of point_to_point, SystemTrajectory.eval: notes/NOTES-py2lean-flat.md)
     extra_modules = extra_modules + ["CtrlVerif.Props.C20GenFlatInit", "CtrlVerif.Props.C20GenFlatMaps",
@@ -263,6 +269,25 @@ class C20(Family):
         "history / typed-time parts: an object of the caller that a call writes to is reported as a violation "
         "(the inverse laws / the end-point conditions are read on the objects the caller holds)"]
     # <<< C20-hist
+    # >>> C20-par (user-defined flat systems that declare default parameters; planning calls with params=: families/c20_par.py)
+    rule = rule + (
+        "; parameter part: user-defined flat systems (1..2 flat outputs, 1..4 states) whose forward / reverse / "
+        "update callables read 1..3 parameters by params.get(key, fallback) or params[key], constructed with "
+        "params={...} declaring all, some or none of them (declared value equal to or different from the callable's "
+        "fallback, sometimes a key nobody reads); point_to_point (plain, 20 % also with a cost), 20 % "
+        "solve_flat_optimal, with params omitted / None / {} / overriding every read key / a proper subset of "
+        "them (override values always different from the declared ones); non-trivial = a params argument is "
+        "passed and the data are non-zero")
+    assumptions = [a.replace("(user-defined flat systems: polynomial maps only, see the multi-output part)",
+                             "(user-defined flat systems: polynomial maps only, see the multi-output and the "
+                             "parameter part)") for a in assumptions] + [
+        "parameter part: 'the system dynamics' of the property are sys.dynamics(t, x, u, params=arg), i.e. the update "
+        "function on {**sys.params, **arg} (NonlinearIOSystem._update_params); parameters enter the maps "
+        "polynomially (coefficients of the coordinate changes), every read parameter occurs in the dynamics",
+        "parameter part: when the dict flatsys.py hands to forward / reverse (the argument REPLACES sys.params) reads "
+        "other values than the dynamics do and no property failure is visible on the case, the trajectory is not "
+        "compared with the model's (which is planned for the requested values)"]
+    # <<< C20-par
 
     def __init__(self):
         self._cache = {}
@@ -272,6 +297,9 @@ class C20(Family):
         # >>> C20-hist (call histories on kept objects; typed time stamps / long horizons: families/c20_hist.py)
         self.hist = c20_hist.Hist(self)
         # <<< C20-hist
+        # >>> C20-par
+        self.par = c20_par.Par(self.multi)
+        # <<< C20-par
 
     # ---- generation -------------------------------------------------------
     def rq(self, rng):
@@ -376,6 +404,9 @@ class C20(Family):
         # >>> C20-hist (call histories on kept objects; typed time stamps / long horizons: families/c20_hist.py)
         cases += self.hist.generate(rng, tier)        # after the other streams: those are unchanged per seed
         # <<< C20-hist
+        # >>> C20-par
+        cases += self.par.generate(rng, tier)         # last: the earlier streams are unchanged per seed
+        # <<< C20-par
         return cases
 
     def corpus(self):
@@ -399,6 +430,9 @@ class C20(Family):
         # >>> C20-hist (call histories on kept objects; typed time stamps / long horizons: families/c20_hist.py)
         ] + self.hist.corpus() + [
         # <<< C20-hist
+        # >>> C20-par
+        ] + self.par.corpus() + [
+        # <<< C20-par
         ]
 
     # ---- execution ----------------------------------------------------------
@@ -416,6 +450,10 @@ class C20(Family):
         if case.get("kind") in ("hist", "tt"):
             return self.hist.line(case)
         # <<< C20-hist
+        # >>> C20-par
+        if case.get("kind") == "par":
+            return self.par.line(case)
+        # <<< C20-par
         s = case["sys"]
         pre, full = self.sys_prefix(s)
         if not full:
@@ -441,6 +479,10 @@ class C20(Family):
         if case.get("kind") in ("hist", "tt"):
             return self.hist.impl(case)
         # <<< C20-hist
+        # >>> C20-par
+        if case.get("kind") == "par":
+            return self.par.impl(case)
+        # <<< C20-par
         s = case["sys"]
         n = s["n"]
         out = {}
@@ -531,6 +573,10 @@ class C20(Family):
         if case.get("kind") in ("hist", "tt"):
             return self.hist.parse_model(case, out)
         # <<< C20-hist
+        # >>> C20-par
+        if case.get("kind") == "par":
+            return self.par.parse_model(case, out)
+        # <<< C20-par
         s = case["sys"]
         n = s["n"]
         if out.startswith("err "):
@@ -590,6 +636,10 @@ class C20(Family):
         if case.get("kind") in ("hist", "tt"):
             return self.hist.compare(case, impl, model)
         # <<< C20-hist
+        # >>> C20-par
+        if case.get("kind") == "par":
+            return self.par.compare(case, impl, model)
+        # <<< C20-par
         s = case["sys"]
         n = s["n"]
         if "err" in model:
@@ -724,6 +774,10 @@ class C20(Family):
         if case.get("kind") in ("hist", "tt"):
             return self.hist.nontrivial(case, model)
         # <<< C20-hist
+        # >>> C20-par
+        if case.get("kind") == "par":
+            return self.par.nontrivial(case, model)
+        # <<< C20-par
         s = case["sys"]
         if "err" in model or s["n"] < 2:
             return False
@@ -740,6 +794,10 @@ class C20(Family):
         if case.get("kind") in ("hist", "tt"):
             return self.hist.stats(case, impl, model)
         # <<< C20-hist
+        # >>> C20-par
+        if case.get("kind") == "par":
+            return self.par.stats(case, impl, model)
+        # <<< C20-par
         s = case["sys"]
         st = {"order": s["n"], "outcome": ("err:" + model["err"]) if "err" in model else "ok"}
         if "err" in model and "err" in impl:
@@ -765,6 +823,11 @@ class C20(Family):
             yield from self.hist.shrink(case)
             return
         # <<< C20-hist
+        # >>> C20-par
+        if case.get("kind") == "par":
+            yield from self.par.shrink(case)
+            return
+        # <<< C20-par
         if case.get("p2p"):
             c = dict(case)
             c["p2p"] = None
@@ -813,6 +876,10 @@ class C20(Family):
         if case.get("kind") in ("hist", "tt"):
             return self.hist.search(rng, case, tier)
         # <<< C20-hist
+        # >>> C20-par
+        if case.get("kind") == "par":
+            return self.par.search(rng, case, tier)
+        # <<< C20-par
         return [self.gen_case(rng, tier) for _ in range(200)]
 
 
